@@ -320,6 +320,13 @@ func corpus() []struct {
 	return out
 }
 
+// quickLimit: how many cases of the larger codecs go to the Gallina decoder per quick run.
+var quickLimit = map[string]int{"dpos_checkpoint": 6, "cr_checkpoint": 8, "dpos_state_key_frame": 10, "proposal_key_frame": 12,
+	"cr_key_frame": 20, "cr_state_key_frame": 20, "(wallet_checkpoint default_payloads)": 20}
+
+// addModelCase lets the mempool part hand a case to the Gallina decoder.
+var addModelCase func(codec string, wire []byte, term string)
+
 func main() {
 	run := lib.ParseArgs()
 	elaenv.InitLog(run.Out)
@@ -335,8 +342,8 @@ func main() {
 		diffs, sites, wire, outcome := roundTrip(c.t, c.x)
 		report(run, st, &id, c.t.name, -1-k, 1, diffs, sites, wire, outcome)
 	}
-	sh := &lib.Shards{Dir: run.Out, Imports: "From ELA Require Import lib.Bytes lib.C23_codec model.C23_KeyFrame corr.C23_corr.",
-		CaseType: "C23_corr.case", Mismatch: "C23_corr.mismatches", Scope: "N", PerShard: 25}
+	sh := &lib.Shards{Dir: run.Out, Imports: "From ELA Require Import lib.Bytes lib.C23_codec lib.C23_codec2 model.C23_KeyFrame model.C23_Checkpoints corr.C23_corr.",
+		CaseType: "C23_corr.case", Mismatch: "C23_corr.mismatches", Scope: "N", PerShard: 14}
 	modelled := map[string]int{} // cases sent to the Gallina decoder, per codec
 	nPer := run.N(60, 1500)
 	ts := targets()
@@ -356,11 +363,53 @@ func main() {
 			for _, u := range sortedKeys(g.Unfilled) {
 				st.Hist["unfilled:"+u]++
 			}
+			// restore into a NON-EMPTY receiver (Manager.Restore deserialises into the
+			// registered checkpoint, ProposalKeyFrame.Snapshot into NewProposalKeyFrame()):
+			// Deserialize must replace, not extend, what the receiver holds
+			if outcome == "ok" && i%2 == 0 {
+				recv := t.mk(newGen(rng.Fork(), []int{1, 3}[i/2%2]))
+				var diffs2, sites2 []string
+				out2 := "ok"
+				if p, pv := lib.Recover(func() {
+					if err := recv.Deserialize(bytes.NewBuffer(wire)); err != nil {
+						out2 = "deserialize-error: " + err.Error()
+						return
+					}
+					d := &Differ{Skip: skipField, Max: 20, Equiv: equivs()}
+					d.Diff(reflect.ValueOf(x).Elem(), reflect.ValueOf(recv).Elem(), t.name)
+					diffs2, sites2 = d.Out, d.Sites
+				}); p {
+					out2 = fmt.Sprintf("panic: %v", pv)
+				}
+				id++
+				st.Count(fmt.Sprintf("into:%s:%x", t.name, wire), mode != 0 && out2 == "ok", "restore-into:"+t.name)
+				st.LogCase(run.Out, id, map[string]interface{}{"target": "restore-into:" + t.name, "index": i, "mode": mode, "outcome": out2, "diffs": diffs2})
+				input := map[string]interface{}{"target": t.name, "seed": run.Seed, "index": i, "mode": mode}
+				if out2 != "ok" {
+					st.Fail("restore-into:"+t.name+":"+strings.SplitN(out2, ":", 2)[0], "Deserialize into a populated receiver failed: "+out2, input)
+				}
+				seen := map[string]bool{}
+				for k, d := range diffs2 {
+					sig := "restore-into:" + sites2[k]
+					if strings.HasPrefix(sites2[k], "wallet.CoinsCheckPoint.") {
+						sig = "restore-into:wallet.CoinsCheckPoint:merges-into-receiver"
+					}
+					if !seen[sig] {
+						seen[sig] = true
+						input["diff"] = d
+						st.Fail(sig, "Deserialize into a receiver that already holds data does not reproduce the serialized value (it extends the receiver instead of replacing it): "+d, input)
+					}
+				}
+			}
 			// codec correspondence: the Gallina decoder reads the Go bytes
-			if codec, term, ok := coqCase(t.name, x); ok && outcome == "ok" {
+			codec, term, ok := coqCase(t.name, x)
+			if !ok {
+				codec, term, ok = coqCase2(x)
+			}
+			if ok && outcome == "ok" {
 				limit := run.N(30, 400)
-				if len(wire) > 3000 {
-					limit = run.N(10, 100)
+				if q, ok := quickLimit[codec]; ok {
+					limit = run.N(q, 10*q)
 				}
 				if modelled[codec] < limit && len(wire) < 40000 {
 					modelled[codec]++
@@ -370,9 +419,16 @@ func main() {
 			}
 		}
 	}
+	addModelCase = func(codec string, wire []byte, term string) {
+		if modelled[codec] < run.N(30, 400) {
+			modelled[codec]++
+			sh.Add(fmt.Sprintf("Case %d %s %s %s", id, codec, lib.CoqBytes(wire), term))
+			st.Hist["model:"+codec]++
+		}
+	}
+	mempoolCases(run, rng, st, &id)
 	st.Extra["model_cases"] = modelled
 	sh.Flush()
-	mempoolCases(run, rng, st, &id)
 	historyCases(run, rng, st, &id)
 	liveRoundTrip(run, rng, st, &id)
 	st.Traces = st.Evals
